@@ -26,8 +26,10 @@ DATA = "/sim/data.txt"
 
 
 class Raise(Exception):
-    def __init__(self, cls):
+    def __init__(self, cls, raised=False):
         self.cls = cls
+        # raised by a raise statement of the program (message 'injected') rather than by the runtime
+        self.raised = raised
 
 
 class Ret(Exception):
@@ -134,6 +136,9 @@ def generate(r):
     for fi in range(nf):
         names = ["p%d_%d" % (j, fi) for j in range(params[fi])]
         funs.append({"params": params[fi], "shape": shapes[fi], "body": block(fi, 0, False, 0, names)})
+    # the outermost handler (module level) usually catches everything, sometimes only one class: then an injected error of
+    # another class has no matching handler at all and must end the program with a traceback and a failing status
+    funs[0]["top_filter"] = r.choice(["Error", "Error", "Error"] + FILTERS)
     return funs
 
 
@@ -217,7 +222,7 @@ def render(funs, target, kind):
             elif s[0] == "try":
                 out.append("%stry {" % ind)
                 out += rb(s[1], ind + "  ")
-                out.append("%s} catch e: %s { print('C', e.cls().name()%s);" % (ind, s[3], names_tail(s[2])))
+                out.append("%s} catch e: %s { print('C', e.cls().name(), e.message == 'injected'%s);" % (ind, s[3], names_tail(s[2])))
                 out += rb(s[4], ind + "  ")
                 out.append("%s}" % ind)
         return out
@@ -254,7 +259,7 @@ def render(funs, target, kind):
     first = call_text(0, [7000 + j for j in range(funs[0]["params"])])
     if funs[0]["shape"] == "method":
         first = first.replace("Host().m0(", "Host0().m0(")
-    text += "\ntry { print('R', %s); } catch e: Error { print('TOP', e.cls().name()); }\n" % first
+    text += "\ntry { print('R', %s); } catch e: %s { print('TOP', e.cls().name()); }\n" % (first, funs[0].get("top_filter", "Error"))
     text += "let after = %d;\nprint('END', CNT, after);\n" % 4242
     return text
 
@@ -285,7 +290,7 @@ def model(funs, target, kind):
             elif s[0] in ("fp", "fpi"):
                 count[0] += 1
                 if count[0] == target:
-                    raise Raise(CLASS_OF[kind])
+                    raise Raise(CLASS_OF[kind], kind in ("Error", "MyErr"))
             elif s[0] == "call":
                 out.append("R %s" % call(s[1], s[2]))
             elif s[0] == "print":
@@ -325,7 +330,7 @@ def model(funs, target, kind):
                     run_block(s[1], env)
                 except Raise as error:
                     if s[3] == "Error" or s[3] == error.cls:
-                        out.append(show("C " + error.cls, env, s[2]))
+                        out.append(show("C %s %s" % (error.cls, "true" if error.raised else "false"), env, s[2]))
                         run_block(s[4], env)
                     else:
                         raise
@@ -338,10 +343,16 @@ def model(funs, target, kind):
             return ret.value
         return 9000 + fi
 
+    top = funs[0].get("top_filter", "Error")
     try:
         out.append("R %s" % call(0, [7000 + j for j in range(funs[0]["params"])]))
     except Raise as error:
-        out.append("TOP %s" % error.cls)
+        if top == "Error" or top == error.cls:
+            out.append("TOP %s" % error.cls)
+        else:
+            # no matching handler anywhere: the program ends here
+            out.append("UNHANDLED %s" % error.cls)
+            return out, count[0]
     out.append("END %d 4242" % count[0])
     return out, count[0]
 
@@ -421,7 +432,21 @@ class C04(Check):
             got = result["stdout"].splitlines()
             problems = []
             failure = core.host_failure(result)
-            if failure:
+            unhandled = expect and expect[-1].startswith("UNHANDLED ")
+            if unhandled and not failure:
+                counters["errors_without_a_matching_handler"] = counters.get("errors_without_a_matching_handler", 0) + 1
+                cls = expect[-1].split()[1]
+                want = expect[:-1]
+                if result["vmexit"] != "runtime" or result["exit"] == 0:
+                    problems.append(("an error without a matching handler did not end the program with a failing status",
+                                     "%s exit %s, stdout tail %r" % (result["vmexit"], result["exit"], got[-2:])))
+                elif cls not in result["stderr"] or "Traceback" not in result["stderr"]:
+                    problems.append(("an error without a matching handler did not produce a traceback naming its class",
+                                     result["stderr"][-300:]))
+                elif got != want:
+                    problems.append(("execution after an injected error diverges from the model",
+                                     "before the unhandled error the program printed %r, the model says %r" % (got[-3:], want[-3:])))
+            elif failure:
                 problems.append(("an injected error ended in a host failure", failure))
             elif result["vmexit"] != "ok":
                 problems.append(("an injected error escaped every handler although one matches",
